@@ -101,8 +101,9 @@ func init() {
 			for _, drop := range [][2][]int{{{0}, nil}, {nil, {0}}, {{0, 1}, {0}}} {
 				k := genUDPCase(c.Rand, 20000, false)
 				k.Faults = sim.FaultSpec{Seed: c.Rand.Int63(), DelayMs: 20, DropC2S: drop[0], DropS2C: drop[1]}
-				k.Scripts = []sim.Script{{ClientWrites: []int{700, 5000}, ServerWrites: []int{3000}, MaxRead: 1500}}
-				k.TimeoutS = 180
+				k.Scripts = []sim.Script{{ClientWrites: []int{700, 5000}, ServerWrites: []int{3000}, MaxRead: 1500},
+					{ClientWrites: []int{700, 600, 5000}, ServerWrites: []int{3000}, MaxRead: 1500}}
+				k.TimeoutS = 60
 				cases = append(cases, k)
 			}
 			n = len(cases)
